@@ -103,6 +103,8 @@ func execOnce(sc Scenario) *evid.Failure {
 		f = execDup(sc, s, srvUDP)
 	case "blocks":
 		f = execBlocks(sc, s, srvUDP)
+	case "dupblocks":
+		f = execDupBlocks(sc, s, srvUDP)
 	}
 	hmu.Lock()
 	defer hmu.Unlock()
@@ -312,6 +314,112 @@ func execBlocks(sc Scenario, s *udpServer.Server, srvUDP *net.UDPAddr) *evid.Fai
 	return nil
 }
 
+// execDupBlocks: a discovery is pending; a second one with the same token is refused; then the device
+// answers the first with a body of several blocks. The follow-up requests for the later blocks are
+// what the first discovery asked for (GET, its path, its token) and the receiver gets the whole body.
+func execDupBlocks(sc Scenario, s *udpServer.Server, srvUDP *net.UDPAddr) *evid.Failure {
+	dev, err := net.ListenUDP("udp4", &net.UDPAddr{IP: net.IPv4(127, 0, 0, 1)})
+	if err != nil {
+		return nil
+	}
+	defer dev.Close()
+	full := body(7, 1024*(sc.Blocks-1)+200)
+	refused := make(chan struct{})
+	var bad string
+	var bmu sync.Mutex
+	go func() {
+		buf := make([]byte, 2048)
+		mid := 44000
+		for {
+			_ = dev.SetReadDeadline(time.Now().Add(2 * time.Second))
+			n, from, err := dev.ReadFromUDP(buf)
+			if err != nil {
+				return
+			}
+			req, ok := peer.ParseDatagram(buf[:n])
+			if !ok || (req.Code == 0) {
+				continue
+			}
+			num := 0
+			if v, ok := peer.FindOpt(req, 23); ok {
+				bv := 0
+				for _, x := range v {
+					bv = bv<<8 | int(x)
+				}
+				num = bv >> 4
+			}
+			if num == 0 {
+				<-refused // answer only after the colliding call has been refused
+			} else {
+				var segs []string
+				for _, o := range req.Opts {
+					if o.Num == 11 {
+						segs = append(segs, string(o.Val))
+					}
+				}
+				if req.Code != 1 || fmt.Sprint(segs) != "[oic res]" || !bytes.Equal(req.Token, []byte{0xD5, 0x01}) || len(req.Payload) != 0 {
+					bmu.Lock()
+					bad = fmt.Sprintf("code %d path %v token %x payload %d bytes", req.Code, segs, req.Token, len(req.Payload))
+					bmu.Unlock()
+					return
+				}
+			}
+			lo, hi := 1024*num, min(1024*num+1024, len(full))
+			if lo >= len(full) {
+				continue
+			}
+			mid++
+			m := refcodec.Msg{Type: peer.NON, MID: mid, Code: 69, Token: req.Token, Opts: []refcodec.Opt{block2(num, hi < len(full))}, Payload: full[lo:hi]}
+			if req.Type == peer.CON {
+				m.Type, m.MID = peer.ACK, req.MID
+			}
+			_, _ = dev.WriteToUDP(peer.Datagram(m), from)
+		}
+	}()
+	var got [][]byte
+	var gmu sync.Mutex
+	first := make(chan struct{})
+	go func() {
+		defer close(first)
+		ctx, cancel := context.WithTimeout(context.Background(), 900*time.Millisecond)
+		defer cancel()
+		_ = s.Discover(ctx, dev.LocalAddr().String(), "/oic/res", func(_ *udpClient.Conn, resp *pool.Message) {
+			b, _ := resp.ReadBody()
+			gmu.Lock()
+			got = append(got, append([]byte(nil), b...))
+			gmu.Unlock()
+		})
+	}()
+	time.Sleep(40 * time.Millisecond)
+	for k := 0; k < sc.Responders; k++ { // (re-used field: how many colliding calls are made)
+		ctx, cancel := context.WithTimeout(context.Background(), 200*time.Millisecond)
+		err := s.Discover(ctx, dev.LocalAddr().String(), "/oic/res", func(*udpClient.Conn, *pool.Message) {})
+		cancel()
+		if err == nil {
+			close(refused)
+			<-first
+			return evid.Failf("discovery/duplicate-token-accepted", sc, "a discovery with the token of a running one was not refused")
+		}
+	}
+	close(refused)
+	<-first
+	bmu.Lock()
+	defer bmu.Unlock()
+	if bad != "" {
+		return evid.Failf("discovery/foreign-follow-up-request", sc, "after a colliding discovery was refused, the follow-up request for the next block of the running discovery's response is not that discovery's request: %s (want GET [oic res] token d501, no payload)", bad)
+	}
+	gmu.Lock()
+	defer gmu.Unlock()
+	if len(got) != 1 || !bytes.Equal(got[0], full) {
+		n := -1
+		if len(got) > 0 {
+			n = len(got[0])
+		}
+		return evid.Failf("discovery/block-wise-response-lost", sc, "a colliding discovery was refused while the first ran; the device then answered the first with %d blocks: the receiver got %d bodies (first of %d bytes), want the %d-byte body once", sc.Blocks, len(got), n, len(full))
+	}
+	return nil
+}
+
 // Exec runs one scenario; a failure counts only if it reproduces three times in a row (real time).
 func Exec(sc Scenario) *evid.Failure {
 	var f *evid.Failure
@@ -329,6 +437,9 @@ func Gen(mode string) func(t *rapid.T) Scenario {
 		switch mode {
 		case "dup":
 			sc.Responders = rapid.IntRange(1, 3).Draw(t, "responders")
+		case "dupblocks":
+			sc.Blocks = rapid.IntRange(2, 3).Draw(t, "blocks")
+			sc.Responders = rapid.IntRange(1, 3).Draw(t, "collisions")
 		case "blocks":
 			sc.Blocks = rapid.IntRange(2, 4).Draw(t, "blocks")
 			sc.Served = rapid.IntRange(1, sc.Blocks-1).Draw(t, "served")
@@ -350,4 +461,5 @@ func Engine(r *evid.Run, mode string, quick, thorough int) evid.Engine {
 }
 
 const RuleDup = "discovery: the loopback udp/server's Discover with a token source that always hands out one token, 1-3 responders on sockets of their own (real time; a failure counts only if it reproduces three times in a row): a second call made while the first runs is refused and sees nothing, the first still receives every responder's answer with that responder's connection, and a third call made after both returned is served normally; the server's own request handler is never invoked for those responses"
+const RuleDupBlocks = "discovery (dupblocks): a discovery is pending, 1-3 more with the same token are refused, then the device answers the first with a body of 2-3 blocks: the follow-up requests are the first discovery's (GET, its path, its token, no payload) and its receiver gets the whole body once"
 const RuleBlocks = "discovery: the loopback udp/server's Discover against a responder that answers with bodies of 2-4 blocks of 1024 bytes; the first poll is abandoned (the responder goes silent after K blocks, the call ends at its deadline, nothing is delivered), the second poll takes the same token again 0-500 ms later and is served completely with another body: what is delivered is exactly that body, once (real time; a failure counts only if it reproduces three times in a row)"
